@@ -294,7 +294,29 @@ func (w *rsWorld) peer(id string) *p2p.Peer {
 	return p
 }
 
-func (w *rsWorld) snap() rsSnap { return w.pv.snap(w.n + 3) }
+// snap: the pool as it is now. Once the pool is locked up (its mutex is held for ever) nothing
+// of the harness may touch it again.
+func (w *rsWorld) snap() rsSnap {
+	if w.poolDead {
+		return rsSnap{reqs: map[int64]rsReq{}, peers: map[string]rsPeerInfo{}}
+	}
+	return w.pv.snap(w.n + 3)
+}
+
+func (w *rsWorld) dropPeer(id string, reason interface{}) {
+	if !w.poolDead {
+		w.bcR.RemovePeer(w.peer(id), reason)
+	}
+}
+
+// pairReady: the pool routine has two blocks to work on.
+func (w *rsWorld) pairReady() bool {
+	if w.poolDead {
+		return false
+	}
+	f, s := w.pv.pool.PeekTwoBlocks()
+	return f != nil && s != nil
+}
 
 // sigLate: BlockPool.AddBlock assumes that the sender of an accepted block is still in pool.peers and
 // that the requester is listening on gotBlockCh; neither holds while the asynchronous redo of a
@@ -324,7 +346,7 @@ func (w *rsWorld) receive(from string, msg []byte) {
 			// (the switch removes the peer from the reactors; not repeated here when the pool has
 			// dropped it already: a second removePeer would redo its requesters a second time)
 			if _, in := w.snap().peers[from]; in {
-				w.bcR.RemovePeer(w.peer(from), fmt.Errorf("%v", p))
+				w.dropPeer(from, fmt.Errorf("%v", p))
 			}
 		}
 	}()
@@ -375,11 +397,14 @@ func (w *rsWorld) sendBlockGuarded(from string, b *gtypes.Block) {
 }
 
 func (w *rsWorld) sendStatus(from string, height int64) {
+	if w.poolDead {
+		return
+	}
 	w.receive(from, wire.BinaryBytes(struct{ C13Message }{&statusResponseMsg{Height: height}}))
 }
 
 func (w *rsWorld) await(what string, cond func(s rsSnap) bool) bool {
-	if w.inconclusive != "" {
+	if w.inconclusive != "" || w.poolDead {
 		return false
 	}
 	deadline := time.Now().Add(rsAwait)
@@ -460,7 +485,7 @@ func (w *rsWorld) removePeer(id string) {
 			w.eligible = ""
 		}
 	}
-	w.bcR.RemovePeer(w.peer(id), "reactorsched")
+	w.dropPeer(id, "reactorsched")
 	w.settle()
 }
 
@@ -551,8 +576,8 @@ func (w *rsWorld) act(a RSAct, base int64, where string) (effect bool) {
 		}
 		// the peer is removed while its answer is on the way: the answer reaches the pool before
 		// or after the requester has noticed (not the harness's choice; the state after is the same)
-		w.bcR.RemovePeer(w.peer(id), "reactorsched")
-		w.sendBlockGuarded(id, rsCopyBlock(w.chain.blocks[g]))
+		w.dropPeer(id, "reactorsched")
+		w.sendBlock(id, rsCopyBlock(w.chain.blocks[g]))
 		if w.poolDead || w.halted {
 			return false
 		}
@@ -637,6 +662,9 @@ func (w *rsWorld) act(a RSAct, base int64, where string) (effect bool) {
 // flush: every open request of the chain's heights is answered with the genuine block by the
 // peer that was asked.
 func (w *rsWorld) flush() int {
+	if w.poolDead || w.halted {
+		return 0
+	}
 	w.ensureEligible()
 	if !w.settle() {
 		return 0
@@ -661,7 +689,7 @@ func (w *rsWorld) flush() int {
 
 // heal: the peers whose altered blocks sit in the pool go away, then flush.
 func (w *rsWorld) heal() {
-	for round := 0; round < 12; round++ {
+	for round := 0; round < 12 && !w.poolDead && !w.halted; round++ {
 		s := w.snap()
 		bad := ""
 		for g := s.height; g <= w.n && bad == ""; g++ {
@@ -746,7 +774,7 @@ func (w *rsWorld) verifierLocked(bID gtypes.BlockID, hgt int64, lc *gtypes.Commi
 			}
 		}
 	}
-	if w.inconclusive != "" {
+	if w.inconclusive != "" || w.halted || w.poolDead {
 		return nil, true
 	}
 	after := w.snap()
@@ -826,7 +854,7 @@ func (w *rsWorld) executerLocked(blk *gtypes.Block, pst *gtypes.PartSet, c *gtyp
 			w.act(a, hgt, "exec")
 		}
 	}
-	if w.inconclusive != "" {
+	if w.inconclusive != "" || w.halted || w.poolDead {
 		return true
 	}
 	var err error
@@ -880,7 +908,7 @@ func (w *rsWorld) onStall(s rsSnap) {
 	}
 	if w.c.GiveUpAfter > 0 && k >= w.c.GiveUpAfter {
 		for _, id := range s.peerIDs() {
-			w.bcR.RemovePeer(w.peer(id), "reactorsched: everybody leaves")
+			w.dropPeer(id, "reactorsched: everybody leaves")
 		}
 		w.eligible = ""
 		w.gaveUp = true
@@ -888,7 +916,10 @@ func (w *rsWorld) onStall(s rsSnap) {
 	}
 	if k < len(w.c.Stalls) {
 		for _, a := range w.c.Stalls[k] {
-			if f, sec := w.pv.pool.PeekTwoBlocks(); f != nil && sec != nil {
+			if w.halted || w.poolDead {
+				return
+			}
+			if w.pairReady() {
 				// the pool routine can go on (and may be on its way into the verifier already):
 				// what is left of this list would no longer happen at a defined moment
 				w.label("stall:rest-of-list-dropped")
@@ -1019,7 +1050,7 @@ func runRS(c RSCase, x *h.Ctx) {
 				w.label("pool-routine-did-not-take-its-next-step")
 				w.awaitExec, w.awaitRedo = false, ""
 			}
-			if f, s := w.pv.pool.PeekTwoBlocks(); f == nil || s == nil {
+			if !w.pairReady() {
 				w.onStall(w.snap())
 			}
 		}
